@@ -91,6 +91,26 @@ namespace sqf
             d_array(std::vector<sqf::runtime::value> value) : m_value(std::move(value)) {}
             template<typename TIterator>
             d_array(TIterator begin, TIterator end) : m_value(begin, end) {}
+            d_array(const d_array&) = default;
+            d_array& operator=(const d_array&) = default;
+            ~d_array()
+            { // Arrays nested very deeply (`_a = [_a]` in a loop) are taken apart level by level
+              // instead of one destructor call inside the other, which would exhaust the stack.
+                std::vector<sqf::runtime::value> work;
+                work.swap(m_value);
+                while (!work.empty())
+                {
+                    sqf::runtime::value current = std::move(work.back());
+                    work.pop_back();
+                    if (!current.is<sqf::runtime::t_array>()) { continue; }
+                    auto inner = current.data<d_array>();
+                    if (inner.use_count() == 2)
+                    { // (held by current and inner only: it goes away with them, so its elements are handed over first)
+                        for (auto& element : inner->m_value) { work.push_back(std::move(element)); }
+                        inner->m_value.clear();
+                    }
+                }
+            }
 
             std::shared_ptr<d_array> copy_deep() const
             {
